@@ -658,8 +658,13 @@ class Array(DaskMethodsMixin):
         if value is np.ma.masked:
             value = np.ma.masked_all((), dtype=self.dtype)
 
-        # Check for NaN/inf in integer arrays
-        if not is_dask_collection(value) and self.dtype.kind in "iu":
+        # Check for NaN/inf in integer arrays (in-memory values only: probing a
+        # lazy array-like source would read all of it while the graph is built)
+        if (
+            not is_dask_collection(value)
+            and self.dtype.kind in "iu"
+            and (isinstance(value, (np.ndarray, np.generic)) or not hasattr(value, "shape"))
+        ):
             if np.isnan(value).any():
                 raise ValueError("cannot convert float NaN to integer")
             if np.isinf(value).any():
